@@ -12,6 +12,8 @@
 
 #include <iostream>
 #include <sstream>
+#include <thread>
+#include <chrono>
 #include "vd_common.h"
 
 using namespace uscxml;
@@ -105,7 +107,7 @@ static std::string cfgTok(Interpreter& in) {
 }
 
 // run <engine> <hex scxml> <fuel> <vars comma separated or -> <hex event>*
-static std::string cmd_run(const std::vector<std::string>& a) {
+static std::string run_impl(const std::vector<std::string>& a, int waitRounds) {
 	if (a.size() < 5) return "ERR usage";
 	Recorder rec;
 	std::string xml = unhex(a[2]);
@@ -128,7 +130,11 @@ static std::string cmd_run(const std::vector<std::string>& a) {
 		rec.tok(cfgTok(in));
 		if (s == USCXML_FINISHED) break;
 		if (s == USCXML_IDLE) {
-			if (next >= a.size()) break;
+			if (next >= a.size()) {
+				// no more external events: optionally wait for delayed events the chart sent to itself
+				if (waitRounds-- > 0) { std::this_thread::sleep_for(std::chrono::milliseconds(120)); continue; }
+				break;
+			}
 			Event e(unhex(a[next++]));
 			e.eventType = Event::EXTERNAL;
 			in.receive(e);
@@ -203,6 +209,10 @@ static std::string cmd_runfile(const std::vector<std::string>& a) {
 	return out;
 }
 
+static std::string cmd_run(const std::vector<std::string>& a) { return run_impl(a, 0); }
+// runw: like run, but after the last event wait (up to 6 x 120 ms) for delayed events of the chart itself
+static std::string cmd_runw(const std::vector<std::string>& a) { return run_impl(a, 6); }
+
 // runv: like run, but validate first; a document with a fatal issue is not interpreted
 static std::string cmd_runv(const std::vector<std::string>& a) {
 	if (a.size() < 5) return "ERR usage";
@@ -242,5 +252,6 @@ static std::string cmd_validate(const std::vector<std::string>& a) {
 
 VD_REGISTER(run, cmd_run)
 VD_REGISTER(runv, cmd_runv)
+VD_REGISTER(runw, cmd_runw)
 VD_REGISTER(validate, cmd_validate)
 VD_REGISTER(runfile, cmd_runfile)
